@@ -30,7 +30,8 @@ ASSUMPTIONS = [
 
 @st.composite
 def params(draw, tier):
-    p = draw(gen.tissue_params(kinds=("voronoi", "moebius", "moebius"), max_cells=34, min_cells=10, allow_sub=True,
+    p = draw(gen.tissue_params(kinds=("voronoi", "moebius", "moebius", "moebius"), lattices=("square", "hex"),
+                               max_cells=34, min_cells=10, allow_sub=True,
                                n_int_max=10, pose=True, labels=True))
     if p.get("sub") and draw(st.integers(0, 2)) > 0:
         p["sub"] = None
@@ -39,6 +40,9 @@ def params(draw, tier):
     p["limit"] = draw(st.one_of(st.sampled_from(["default", "inf"]), st.floats(0.5, 1.0), st.floats(0.68, 0.95),
                               st.floats(0.72, 0.9), st.floats(0.75, 0.88)))
     p["noise"] = draw(st.sampled_from([0.0, 0.0, 0.1, 0.3]))
+    if p["kind"] in ("square", "hex"):
+        # four-fold (square) and regular three-fold junctions: displaced so that openings are generic
+        p["noise"] = draw(st.sampled_from([0.1, 0.3, 0.5]))
     p["nseed"] = draw(st.integers(0, 2 ** 32 - 1))
     p["rhs"] = draw(st.sampled_from(["static", "static", "velocity"]))
     p["method"] = draw(st.sampled_from([None, None, "lsq"]))
@@ -167,7 +171,14 @@ def check_case(p, ctx):
     if minus != exp_excl:
         return ctx.violation("minus-one-positions", p, observed=minus[:12], expected=exp_excl[:12])
     # ---- restricted system from an unlimited fresh matrix
-    fresh = call(ffm.ForceMatrix, f0, "none", "none", {}, fsys.mesh, np.inf, p["fit"])
+    # the frame's own lists must not have been edited by the limited build
+    if [list(e) for e in f0.internal_big_edges_vertices] != internal_paths or \
+            len(f0.internal_big_edges) != len(internal_paths):
+        return ctx.violation("frame-interface-list-mutated", p, observed=len(f0.internal_big_edges_vertices),
+                             expected=len(internal_paths))
+    R_fresh = realise(t, nint, lab)
+    f_fresh = make_frame(R_fresh, 0, time=0.0)
+    fresh = call(ffm.ForceMatrix, f_fresh, "none", "none", {}, {}, np.inf, p["fit"])
     Afull = np.asarray(fresh.matrix, float)
     keep_cols = [k for k in range(E) if k not in exp_excl]
     rows_full = dict(fresh.map_vid_to_row)
@@ -232,7 +243,7 @@ def check_case(p, ctx):
 
 
 def run(ctx):
-    drive(ctx, params(ctx.tier), check_case, ctx.budget(quick=220, thorough=800), label="tissue")
+    drive(ctx, params(ctx.tier), check_case, ctx.budget(quick=300, thorough=800), label="tissue")
 
 
 CASES = {"tissue": check_case}
